@@ -118,6 +118,18 @@ func c10Gen(rng *rand.Rand, i int) c10Case {
 		pat = ast.Print(o)
 		ins := gen.Inputs(rng, ast, 4, 12)
 		directed, haveDirected = string(ins[1+rng.Intn(len(ins)-1)]), true
+		if rng.Intn(3) == 0 {
+			// invalid UTF-8 in the string form, preferably near the end
+			b := []byte(directed)
+			for k := 1 + rng.Intn(2); k > 0; k-- {
+				p := len(b) - rng.Intn(3)
+				if p < 0 || rng.Intn(3) == 0 {
+					p = rng.Intn(len(b) + 1)
+				}
+				b = append(b[:p], append([]byte{[]byte{0xff, 0xc3, 0x80, 0xe2}[rng.Intn(4)]}, b[p:]...)...)
+			}
+			directed = string(b)
+		}
 	}
 	if hugeRepeat.MatchString(pat) && rng.Intn(10) != 0 {
 		pat = hugeRepeat.ReplaceAllString(pat, "{2")
